@@ -37,6 +37,9 @@ type Step struct {
 	Op    string `json:"op"`
 	Node  int    `json:"node,omitempty"`
 	Level int    `json:"level,omitempty"`
+	// NoWait (answer): the next step follows at once, without waiting for the effect of this
+	// answer - with a slow quorum function the answers queue up behind the one being evaluated
+	NoWait bool `json:"no_wait,omitempty"`
 }
 
 // Hostile is the second case shape: server 0 is a raw grpc server that answers the subject
@@ -274,8 +277,18 @@ func gen(t *rapid.T) Case {
 		if rapid.IntRange(0, 4).Draw(t, "cutQ") == 0 {
 			cut = rapid.IntRange(0, len(order)).Draw(t, "cut")
 		}
-		for _, s := range order[:cut] {
-			steps = append(steps, Step{Op: "answer", Node: s})
+		// bursts: answers released without waiting for each other's effect while the quorum function
+		// takes its time, so that replies and errors queue up behind the reply being evaluated
+		burst := rapid.IntRange(0, 3).Draw(t, "burst") == 0
+		if burst {
+			c.Call.Script.SlowUs = rapid.SampledFrom([]int{1000, 3000}).Draw(t, "burstSlowUs")
+		}
+		for i, s := range order[:cut] {
+			st := Step{Op: "answer", Node: s}
+			if burst && rapid.IntRange(0, 2).Draw(t, fmt.Sprintf("nowait%d", i)) != 0 {
+				st.NoWait = true
+			}
+			steps = append(steps, st)
 		}
 	}
 	nw := rapid.IntRange(0, 5).Draw(t, "nwatch")
@@ -293,6 +306,13 @@ func gen(t *rapid.T) Case {
 		s := rapid.SampledFrom(targets).Draw(t, "stopNode")
 		pos := rapid.IntRange(0, len(steps)).Draw(t, "stopPos")
 		steps = insertStep(steps, pos, Step{Op: "stop", Node: s})
+	}
+	// an answer that is not waited for is followed at once by another answer (the last one of a
+	// burst is waited for): a stop, cancel or watch in between would race with the released reply
+	for i := range steps {
+		if steps[i].NoWait && (i+1 >= len(steps) || steps[i+1].Op != "answer") {
+			steps[i].NoWait = false
+		}
 	}
 	c.Steps = steps
 	return c
@@ -473,6 +493,8 @@ func run(c Case) vt.Verdict {
 	var watchers []watcher
 	cancelled := false
 	nextGate := map[int]int{} // stream: next gate index per node
+	bursts := false
+	_ = bursts
 	answeredReplies := 0      // replies that have been released so far (each causes one quorum-function invocation while the call is live)
 	exitsExpected := map[int]bool{}
 	stopped := map[int]bool{} // servers stopped by a step: the node has failed (if it had not answered before)
@@ -676,6 +698,10 @@ func run(c Case) vt.Verdict {
 			if isReply {
 				answeredReplies++
 			}
+			if st.NoWait {
+				bursts = true
+				continue // the next step follows at once; a later step waits for the effects of all of them
+			}
 			// wait for the observable effect
 			wantQF := answeredReplies
 			cl.Log.WaitFor(time.Second, func(evs []scen.Event) bool {
@@ -778,6 +804,12 @@ func run(c Case) vt.Verdict {
 		return *v
 	}
 	s1 := observe(call)
+	if !stream && m.errClass == "incomplete" {
+		// every node has answered: the replies the call counts have all been shown to the quorum function
+		if _, r, ok := qeng.ParseCounts(s1.errText); ok && r != m.nqf {
+			return fail(k("replies-not-shown"), "the call ended Incomplete counting %d replies, but the quorum function was invoked only %d times: %s", r, m.nqf, s1.errText)
+		}
+	}
 	// new watchers after completion are released at once
 	for _, l := range []int{0, 3, 9} {
 		if !isClosed(call.Corr.Watch(l)) {
@@ -795,6 +827,12 @@ func run(c Case) vt.Verdict {
 
 func classes(c Case, m model, nonMonotone, ctxBetween bool) []string {
 	cl := []string{"kind=" + c.Call.Kind, fmt.Sprintf("published-levels=%d", m.levels)}
+	for _, st := range c.Steps {
+		if st.NoWait {
+			cl = append(cl, "burst-of-answers")
+			break
+		}
+	}
 	if nonMonotone {
 		cl = append(cl, "non-monotone-script")
 	}
